@@ -317,6 +317,168 @@ def apply_dxdt_case(cls, prop="C02"):
     return Case("%s/Apply_dxdt" % cls, run, functions=["%s::Apply_dxdt" % cls], conc=False)
 
 
+def pairing_grid_case(n):
+    """grid, symbolic shape and boundary conditions: the neighbour of the neighbour in the opposite direction is the cell
+    itself, at the level of GetNeighborIndex (coordinates), of the index decomposition used by BuildMeshNeighbors, and of the table"""
+    P = "C02/pairing/grid"
+    OPP = (1, 0, 3, 2, 5, 4)
+
+    def run(api):
+        from vc.core import lemmas
+        from vc.core.proxies import PYDIV, PYMOD, divmod_fact
+        prog = C11.program()
+        c = api.ctx
+        I = K.make_interp(prog, c, "C02", loop_inv=dict(K.LOOP_INV))
+        o = K.valid_object(I, "Euler3D")
+        f = o.fields
+        w, h, d = f["w"], f["h"], f["d"]
+        bc = f["boundary_conditions"].arr
+        for k in range(3):
+            c.assume(z3.Or(z3.Select(bc, k) == 0, z3.Select(bc, k) == 1))
+        x, y, z = K._int(I, "x", 0), K._int(I, "y", 0), K._int(I, "z", 0)
+        c.assume(z3.And(x < w, y < h, z < d))
+        fn, _ = prog.method("Euler3D", "GetNeighborIndex")
+
+        def wrap_hints(a, m):
+            # a mod m for -1 <= a - m < m + 1 ... : the three possible quotients (instances of the uniqueness schema U)
+            for q in (0, 1, 2):
+                c.assume(lemmas.instance("U", m, PYMOD(a, m), PYDIV(a, m), a - q * m, z3.IntVal(q)))
+        for (a, m) in ((w + x + 1, w), (w + x - 1, w), (w + x, w), (h + y + 1, h), (h + y - 1, h), (h + y, h),
+                       (d + z + 1, d), (d + z - 1, d), (d + z, d)):
+            wrap_hints(a, m)
+        r1 = I.call(fn, o, [x, y, z, z3.IntVal(n)], fn, Frame("top"))
+        loc = dict(I.last_frame_locals)
+        xn, yn, zn = loc["xn"], loc["yn"], loc["zn"]
+        if not c.branch(r1 != -1):
+            return
+        c.oblige(P + "/neighbour-index-is-the-index-of-in-range-coordinates",
+                 z3.And(r1 == w * h * zn + w * yn + xn, xn >= 0, xn < w, yn >= 0, yn < h, zn >= 0, zn < d))
+        for (a, m) in ((w + xn + 1, w), (w + xn - 1, w), (w + xn, w), (h + yn + 1, h), (h + yn - 1, h), (h + yn, h),
+                       (d + zn + 1, d), (d + zn - 1, d), (d + zn, d)):
+            wrap_hints(a, m)
+        r2 = I.call(fn, o, [xn, yn, zn, z3.IntVal(OPP[n])], fn, Frame("top"))
+        c.oblige(P + "/opposite-neighbour-of-the-neighbour-is-the-cell (coordinates)", r2 == w * h * z + w * y + x)
+
+    return Case("pairing/grid/direction%d" % n, run, functions=["SimulationAlgorithm3DBase::GetNeighborIndex"], conc=False,
+                max_paths=3000)
+
+
+def build_neighbors_case():
+    """BuildMeshNeighbors stores, for every cell i and direction n, GetNeighborIndex(coordinates of i, n), where the coordinates
+    handed over are the ones whose linear index is i (so the table is the coordinate-level neighbour relation)"""
+    P = "C02/pairing/grid/BuildMeshNeighbors"
+
+    def run(api):
+        from vc.core import lemmas
+        from vc.core.proxies import PYDIV, PYMOD, divmod_fact
+        prog = C11.program()
+        c = api.ctx
+        I = K.make_interp(prog, c, "C02", loop_inv=dict(K.LOOP_INV))
+        o = K.valid_object(I, "Euler3D")
+        f = o.fields
+        w, h, d = f["w"], f["h"], f["d"]
+        GNI = z3.Function("neighbour_of_coordinates", z3.IntSort(), z3.IntSort(), z3.IntSort(), z3.IntSort(), z3.IntSort())
+        last = {}
+
+        def stub(I_, this, args, fr, node):
+            x, y, z, n = args
+            i = I_.local_by_name(fr, "i")
+            c.assume(lemmas.instance("R", i, w, h, d))
+            wh = w * h
+            r2 = PYMOD(i, wh)
+            # i mod w = (i mod wh) mod w: uniqueness of quotient and remainder for the divisor w
+            c.assume(lemmas.instance("U", w, PYMOD(i, w), PYDIV(i, w), PYMOD(r2, w), h * PYDIV(i, wh) + PYDIV(r2, w)))
+            c.oblige(P + "/coordinates-handed-over-are-those-of-cell-i",
+                     z3.And(x >= 0, x < w, y >= 0, y < h, z >= 0, z < d, i == w * h * z + w * y + x))
+            r = GNI(x, y, z, n)
+            c.assume(z3.And(r >= -1, r < w * h * d))
+            last["v"], last["n"], last["i"] = r, n, i
+            return r
+        I.method_stubs = {"GetNeighborIndex": stub}
+
+        def chk(I_, o_, fr, v, idx):
+            if "v" not in last:
+                return z3.BoolVal(False)
+            return z3.And(v == last["v"], idx == last["i"] * 6 + last["n"])
+        I.store_checks = {"mesh_neighbors": chk}
+        fn, _ = prog.method("Euler3D", "BuildMeshNeighbors")
+        I.call(fn, o, [], fn, Frame("top"))
+        c.oblige(P + "/table-length", o.fields["mesh_neighbors"].n == w * h * d * 6)
+
+    return Case("pairing/grid/BuildMeshNeighbors", run, functions=["SimulationAlgorithm3DBase::BuildMeshNeighbors"], conc=False,
+                max_paths=3000)
+
+
+def set_neighbors_iteration_case():
+    """graph: one iteration of SetNeighbors (edge e between a and b) appends exactly one slot to row a (neighbour b) and one to
+    row b (neighbour a) of the three ragged tables, with the edge's surface and distance in both, bumps both counts, and leaves
+    every older slot and every other row unchanged: the two new slots are each other's mates (a self loop gets two slots in
+    the same row).  By induction over the edge list every slot has exactly one mate (lemma L-mates, stated)."""
+    P = "C02/pairing/graph/SetNeighbors-iteration"
+
+    def run(api):
+        prog = C11.program()
+        c = api.ctx
+        inv0 = dict(K.LOOP_INV)
+        I = K.make_interp(prog, c, "C02", loop_inv=inv0)
+        o = _obj(I, "EulerGraph")
+        f = o.fields
+        M = f["n_meshes"]
+        ne = K._int(I, "n_edges", 0)
+        ei, ej = I.fresh_vec("edge_i", "int", ne), I.fresh_vec("edge_j", "int", ne)
+        es, ed = I.fresh_vec("edge_sfc", "real", ne), I.fresh_vec("edge_dst", "real", ne)
+        I.param_facts = {"edge_i": lambda e: z3.And(e >= 0, e < M), "edge_j": lambda e: z3.And(e >= 0, e < M),
+                         "edge_sfc": lambda e: e > 0, "edge_dst": lambda e: e > 0}
+        r0, k0 = K._int(I, "r0", 0), K._int(I, "k0", 0)       # an arbitrary row and an arbitrary older slot
+        c.assume(r0 < M)
+        snap = {}
+        TABS = ("mesh_neighbor_index", "mesh_neighbor_sfc", "mesh_neighbor_dst")
+
+        def inv(I_, fr, stage):
+            base = K.inv_set_neighbors(I_, fr, stage)
+            ff = fr.this.fields
+            if stage == "assume":
+                snap["cnt"] = ff["mesh_neighbor_n"].arr
+                for t in TABS:
+                    snap[t] = (ff[t].lens, ff[t].arr)
+                return base
+            if stage != "preserve":
+                return base
+            if __import__("os").environ.get("VERIF_PROBE_FALSE"):
+                return [z3.BoolVal(False)]
+            e = I_.local_by_name(fr, "i") - 1
+            a, b = z3.Select(ei.arr, e), z3.Select(ej.arr, e)
+            vals = {"mesh_neighbor_index": (I_.to_int(b), I_.to_int(a)), "mesh_neighbor_sfc": (z3.Select(es.arr, e),) * 2,
+                    "mesh_neighbor_dst": (z3.Select(ed.arr, e),) * 2}
+            out = list(base)
+            cnt0, cnt1 = snap["cnt"], ff["mesh_neighbor_n"].arr
+            out.append(z3.And(z3.Select(cnt1, a) == z3.Select(cnt0, a) + z3.If(a == b, 2, 1),
+                              z3.Select(cnt1, b) == z3.Select(cnt0, b) + z3.If(a == b, 2, 1),
+                              z3.Implies(z3.And(r0 != a, r0 != b), z3.Select(cnt1, r0) == z3.Select(cnt0, r0))))
+            for t in TABS:
+                lens0, arr0 = snap[t]
+                lens1, arr1 = ff[t].lens, ff[t].arr
+                La, Lb = z3.Select(lens0, a), z3.Select(lens0, b)
+                va, vb = vals[t]
+                rowa, rowb = z3.Select(arr1, a), z3.Select(arr1, b)
+                distinct = z3.And(z3.Select(lens1, a) == La + 1, z3.Select(lens1, b) == Lb + 1,
+                                  z3.Select(rowa, La) == va, z3.Select(rowb, Lb) == vb)
+                loop = z3.And(z3.Select(lens1, a) == La + 2, z3.Select(rowa, La) == va, z3.Select(rowa, La + 1) == vb)
+                out.append(z3.If(a == b, loop, distinct))                                        # the two new mate slots
+                out.append(z3.Implies(z3.And(r0 != a, r0 != b),                                   # other rows untouched
+                                      z3.And(z3.Select(lens1, r0) == z3.Select(lens0, r0), z3.Select(arr1, r0) == z3.Select(arr0, r0))))
+                out.append(z3.Implies(k0 < z3.Select(lens0, r0),                                  # older slots untouched
+                                      z3.Select(z3.Select(arr1, r0), k0) == z3.Select(z3.Select(arr0, r0), k0)))
+            return out
+        inv0[("SetNeighbors", 1)] = inv
+        fn, _ = prog.method("EulerGraph", "SetNeighbors")
+        I.call(fn, o, [ne, ei, ej, es, ed], fn, Frame("top"))
+        api.check(P + "/completed", True)
+
+    return Case("pairing/graph/SetNeighbors-iteration", run, functions=["SimulationAlgorithmGraphBase::SetNeighbors"], conc=False,
+                max_paths=3000)
+
+
 def battery_step(tier, seed):
     """bounded stand-ins on the engine built from the working tree (ASan+UBSan): pairing of directed interfaces, and
     conservation of A+B over 2000 steps of A <-> B with diffusion for the three engines"""
@@ -369,6 +531,10 @@ if z3 is not None:
         CASES += [tauleap_diffusion_case(_c), tauleap_reaction_case(_c)]
     for _c in ("Euler3D", "EulerGraph"):
         CASES += [drd_case(_c), compute_dxdt_case(_c), apply_dxdt_case(_c)]
+    for _n in range(6):
+        CASES.append(pairing_grid_case(_n))
+    CASES.append(build_neighbors_case())
+    CASES.append(set_neighbors_iteration_case())
 
 
 # Python seam (librdengine.py is one of the property's anchors): the stoichiometric and substrate matrices, the chemostat map and
